@@ -2,6 +2,9 @@
 namespace SdnsVerif.Gen.C10
 
 def beginwire_pins_capacity : Bool := true
+def carrier_reset_in_serveraw : Nat := 1
+def carrier_reset_in_serverawinline : Nat := 1
+def carrier_reset_in_serverawreplay : Nat := 1
 def chain_fields : List String := ["Writer", "Request", "base", "reqStorage", "Meta", "handlers", "pos", "count", "workPolicy", "detachCleanup", "inlineOnly", "handoff", "replay"]
 def chain_finish_touches : List String := ["Meta", "Request", "detachCleanup"]
 def chain_rebind_resets_writer : Bool := true
@@ -13,9 +16,13 @@ def edns_servedns_slot_unreset : List Nat := []
 def edns_servewire_slot_unreset : List Nat := []
 def grouplookup_copies_when_shared : Bool := true
 def grouplookup_rewrites_id : Bool := true
+def queryer_newchain_calls : Nat := 1
+def queryer_putchain_calls : Nat := 1
 def rw_fields : List String := ["Transport", "msg", "wire", "size", "rcode", "proto", "remoteip", "internal", "directPack"]
 def rw_reset_sets : List String := ["Transport", "directPack", "internal", "msg", "proto", "rcode", "remoteip", "size", "wire"]
 def rw_unreset : List Nat := []
+def servemsgby_newchain_calls : Nat := 1
+def servemsgby_putchain_calls : Nat := 1
 def size_tcp_buf : Nat := 65535
 def size_tcp_drain : Nat := 8192
 def size_tcp_fill : Nat := 4096
